@@ -205,6 +205,27 @@ def evaluate(ctx, deep):
                                 ctx.count(f"{cls_name}:{fam}:real_dtype", key=(cls_name, n, t, preserve, fam, vec.tobytes(), "real"), nontrivial=True)
                                 eval_case(ctx, cls_name, n, t, preserve, fam, vec, real_dtype=True)
 
+    # mid-size registers (8 and 9 qubits: control labels beyond 7): column t only, by evolving |t>
+    from qiskit.quantum_info import Statevector
+    for n in ((8, 9) if deep else (9,)):
+        N = 2 ** n
+        for t in sorted({0, N - 1, int(rng.integers(1, N - 1))}):
+            vec = rng.normal(size=N) + 1j * rng.normal(size=N)
+            vec = vec / np.linalg.norm(vec)
+            for cls_name in CLASSES:
+                case = {"class": cls_name, "n": n, "t": t, "preserve": False, "family": "mid_size", "vector": jsonable(vec), "column_only": True}
+                ctx.count(f"{cls_name[:4].lower()}:mid_size", key=(cls_name, n, t, vec.tobytes()[:256]), nontrivial=True, sample=None)
+                try:
+                    circ = _cls(cls_name)(vec, opt_params={"target_state": t}).definition
+                    col = np.asarray(Statevector.from_int(t, N).evolve(circ).data)
+                    err = float(np.abs(col - vec).max())
+                except Exception as e:   # pylint: disable=broad-except
+                    ctx.violation(f"{cls_name}(target_state={t}) raised {type(e).__name__}: {str(e)[:120]}", case)
+                    continue
+                if not err < TOL:
+                    ctx.violation(f"{cls_name}(target_state={t}, preserve_previous=False): column t of the operator differs "
+                                  f"from the vector by {err:.3g}", dict(case, err=err))
+
 
 def replay(ctx, case):
     vec = unjson_array(case["vector"]).astype(complex)
